@@ -361,7 +361,7 @@ static Res one_case(Out& out, Obs& obs, uint64_t seed, const std::string& tier, 
     if (fam == 5 && n > 50) n = 50;
     // structured shares of the complex-shift family (rep 100..199) and history shares of the general families (rep >= 200)
     const bool structured = (fam == 5 && rep >= 100 && rep < 200); const int skind = structured ? (rep - 100) % 8 : -1;
-    const bool history = (genfam && rep >= 200);
+    const bool history = ((genfam || fam == 11) && rep >= 200);   // fam 11 (Davidson, no init()): compute(ruleA); compute(ruleB) on one object
     if (structured) { static const int sn[3] = {24, 30, 36}; n = thorough ? sn[((rep - 100) / 8) % 3] : 24; if ((rule == 2 || rule == 6) && (skind == 3 || skind == 5 || skind == 6)) n += 1; }
     if (history) n = 30;
     if ((fam == 7 || fam == 13) && n > 100) n = 100;                      // iterative inner solves / sparse products: keep the cost bounded
@@ -372,7 +372,8 @@ static Res one_case(Out& out, Obs& obs, uint64_t seed, const std::string& tier, 
     CaseId id{seed, tier, fam, rule, rep, FAM[fam], n, nev, ncv, 0, 0, full};
     // history share: ruleA (first compute) is another rule of the family than the judged ruleB = rule
     g_pre_rule = -1;
-    if (history) { int ri = 0; for (int i = 0; i < 6; i++) if (CPLX_RULES[i] == rule) ri = i; g_pre_rule = CPLX_RULES[(ri + 1 + (rep - 200) % 5) % 6]; id.cfg = std::string("history-") + RN[g_pre_rule] + "-then-" + RN[rule]; }
+    if (history && fam == 11) { static const int DR[4] = {0, 3, 4, 7}; int ri = 0; for (int i = 0; i < 4; i++) if (DR[i] == rule) ri = i; g_pre_rule = DR[(ri + 1 + (rep - 200) % 3) % 4]; id.cfg = std::string("history-") + RN[g_pre_rule] + "-then-" + RN[rule]; }
+    else if (history) { int ri = 0; for (int i = 0; i < 6; i++) if (CPLX_RULES[i] == rule) ri = i; g_pre_rule = CPLX_RULES[(ri + 1 + (rep - 200) % 5) % 6]; id.cfg = std::string("history-") + RN[g_pre_rule] + "-then-" + RN[rule]; }
     if (structured) id.cfg = SCFG[skind];
     { std::ofstream lc(out.dir + "/lastcase.txt"); lc << cj(id) << "\n"; }
     if (!full) { out.count(std::string("cases_") + FAM[fam]); if (structured) out.count("cfg_" + id.cfg); if (history) out.count("cfg_history"); }
@@ -456,7 +457,8 @@ static Res one_case(Out& out, Obs& obs, uint64_t seed, const std::string& tier, 
               Vec d = sym_spectrum(r, n, rule, type); Mat A = Mat::Zero(n, n); for (int i = 0; i < n; i++) { A(i, i) = d[i]; for (int j = 0; j < i; j++) { double v = 0.02 * r.sym(); A(i, j) = v; A(j, i) = v; } }
               Spectra::DenseSymMatProd<double> op(A); Spectra::DavidsonSymEigsSolver<Spectra::DenseSymMatProd<double>> s(op, nev);
               out.count("oracle_runs"); long nc = -1; std::string ex;
-              try { nc = (long) s.compute((SortRule) rule, 300, 1e-10); } catch (const std::exception& e) { ex = e.what(); }
+              try { if (g_pre_rule >= 0) { try { s.compute((SortRule) g_pre_rule, 300, 1e-10); } catch (const std::exception&) {} out.count("davidson_history_runs"); }   // history share: another rule first, same object
+                    nc = (long) s.compute((SortRule) rule, 300, 1e-10); } catch (const std::exception& e) { ex = e.what(); }
               if (!ex.empty()) { out.count("run_exception"); out.count(std::string("exc_") + FAM[fam]); res.st = 4; break; }
               if (s.info() != CompInfo::Successful) { out.count("not_successful"); out.count(std::string("notconv_") + FAM[fam] + "_" + RN[rule]); res.st = 3; break; }
               Vec ev = s.eigenvalues(); std::vector<CL> ret; for (long i = 0; i < ev.size(); i++) ret.push_back(CL(ev[i], 0));
@@ -521,6 +523,8 @@ static void part_solver(const Args& a, Out& out) {
         // structured shares of the complex-shift family (8 kinds, see SCFG) and history shares init(); compute(ruleA); compute(ruleB) of the general families
         if (fam == 5) for (int rule : rules) for (int rep = 100; rep < 100 + sreps; rep++) run_pair(out, obs, a.seed, a.tier, fam, rule, rep, false);
         if (cplx) for (int rule : rules) for (int rep = 200; rep < 200 + hreps; rep++) run_pair(out, obs, a.seed, a.tier, fam, rule, rep, false);
+        // Davidson has no init(): compute(ruleA); compute(ruleB) on one object must select by ruleB (BothEnds is not a Davidson rule)
+        if (fam == 11) for (int rule : rules) if (rule != 8) for (int rep = 200; rep < 200 + 3 * hreps; rep++) run_pair(out, obs, a.seed, a.tier, fam, rule, rep, false);
     }
     // fixed probe (seed-independent): LOBPCG with a tolerance it cannot reach (tol_div_n = 1e-9, n = 100, exact-inverse preconditioner)
     { g_lob_tol = 1e-9; try { one_case(out, obs, 2, "thorough", 13, 7, 11, false, false); } catch (const std::exception&) { out.count("case_exception"); } g_lob_tol = 1e-7; out.count("lobpcg_strict_probe"); }
